@@ -7,8 +7,10 @@ numpy, purity (arguments and model state bitwise unchanged), the binary match
 test per mode, and the geometry accessors."""
 from __future__ import annotations
 
+import contextlib
 import operator
 import os
+import warnings
 from fractions import Fraction
 
 import numpy as np
@@ -254,6 +256,7 @@ def run(ctx):
     accessor_edges(ctx)
     other_modules(ctx)
     integer_typed_params(ctx)
+    numeric_policies(ctx)
 
 
 # ---------------------------------------------------------------- geometry accessors at the edge of their argument range
@@ -627,3 +630,169 @@ def integer_typed_params(ctx):
                       f"labels {np.asarray(mi.labels_).tolist()} vs {np.asarray(mf.labels_).tolist()}", rep)
         cov.case(("int", cls, rep["kwargs_float"], rep["X"], rep["integer_dtype"]), True)
         cov.hit(f"integer-typed-params:{cls}")
+
+
+# ---------------------------------------------------------------- the value does not depend on the process-wide numeric policy
+
+
+POLICIES = ("errstate-raise", "warnings-as-errors", "plain-float-cache")
+UNDEFINED = (FloatingPointError, ZeroDivisionError, RuntimeWarning, np.linalg.LinAlgError)
+
+
+@contextlib.contextmanager
+def numeric_policy(name):
+    """a numeric policy the host process may legitimately run the library under.  Only division by zero and invalid
+    operations are made strict: exp() in the Gaussian / Bayesian / quadratic-neuron kernels legitimately underflows
+    (and 1/sigma^2 may overflow) on the unchanged tree, so underflow / overflow stay silent."""
+    with quiet():
+        if name == "errstate-raise":
+            with np.errstate(divide="raise", invalid="raise", over="ignore", under="ignore"):
+                yield
+        elif name == "warnings-as-errors":
+            with np.errstate(divide="warn", invalid="warn", over="ignore", under="ignore"), warnings.catch_warnings():
+                warnings.simplefilter("error", RuntimeWarning)
+                yield
+        else:
+            with np.errstate(divide="warn", invalid="warn", over="ignore", under="ignore"):
+                yield
+
+
+def plain_cache(cache):
+    """the same cache with every numpy scalar replaced by the Python float of the same value (what a cache looks like
+    after float(), .item(), .tolist() or a JSON / pickle-free round trip); arrays and other entries are kept"""
+    if cache is None:
+        return None
+    return {k: (float(v) if isinstance(v, np.floating) or (isinstance(v, np.ndarray) and v.ndim == 0 and v.dtype.kind == "f") else v)
+            for k, v in cache.items()}
+
+
+def centre_sample(cls, w, d):
+    """the sample lying exactly on the centre of the category w (None where the class has no such notion)"""
+    if cls == "FuzzyART":
+        return np.concatenate([w[:d], 1 - w[:d]])
+    if cls in ("HypersphereART", "EllipsoidART", "GaussianART", "BayesianART"):
+        return np.array(w[:d], dtype=float)
+    if cls == "ART1":
+        return np.array(w[d:], dtype=float)
+    if cls == "ART2A":
+        return np.array(w, dtype=float)
+    return None
+
+
+def kernel_chain(m, x, w, p, cache_map=None):
+    """category_choice -> match_criterion -> update -> new_weight with the cache handed on as BaseART does;
+    returns the values, or (function name, exception) of the first call that raised"""
+    fn = "category_choice"
+    try:
+        T, cache = m.category_choice(x, w, params=p)
+        if cache_map is not None:
+            cache = cache_map(cache)
+        fn = "match_criterion"
+        M, cache2 = m.match_criterion(x, w, params=p, cache=cache)
+        if cache_map is not None:
+            cache2 = cache_map(cache2)
+        fn = "update"
+        wu = np.asarray(m.update(x, w, p, cache=cache2), dtype=float)
+        fn = "new_weight"
+        wn = np.asarray(m.new_weight(x, p), dtype=float)
+    except Exception as e:      # noqa: BLE001 -- whatever came out is what is reported
+        return None, (fn, e)
+    return (float(T), float(M), wu, wn), None
+
+
+def numeric_policies(ctx):
+    """Oracle (implementation alone): the published equations have the sample, the weight and the hyper-parameters as
+    their only arguments -- not the floating-point error policy of the process and not the Python type that carries a
+    cached number.  On the boundary inputs of the quantifier (sample exactly on a category centre, zero radius /
+    freshly created category, duplicated rows) and wherever the published rule itself is defined (evaluated with
+    numpy under divide/invalid = raise it returns finite numbers), every kernel called
+      * under np.errstate(divide='raise', invalid='raise'),
+      * with RuntimeWarning turned into an error (python -W error::RuntimeWarning, pytest -W error),
+      * with a cache whose numpy scalars were replaced by equal Python floats
+    returns the value it returns under the default policy, leaves its arguments alone and does not raise."""
+    cov = ctx.cov
+    CL = ["HypersphereART", "EllipsoidART", "FuzzyART", "GaussianART", "ART2A", "BayesianART", "ART1", "QuadraticNeuronART"]
+    for i in range(ctx.scale(64, 1600)):
+        r = gen.rng_for(ctx.seed, "C03-pol", i)
+        cls = CL[i % 8]
+        d = r.randint(1, 3)
+        spec = specs.elem_spec(r, cls, d)
+        X = specs.elem_data(r, cls, r.randint(4, 8), d, floats=r.random() < 0.4 and cls != "ART1")
+        X = np.vstack([X, X[:r.randint(1, 3)]])          # duplicated rows: the second copy falls on an existing centre
+        m = make(spec)
+        try:
+            with quiet():
+                m.fit(X)
+        except Exception as e:
+            cov.hit(f"policy:train-raised:{cls}:{exc_enum(e)}")
+            continue
+        p = m.params
+        pairs = []
+        for j in range(5):
+            kind = ["centre-of-trained", "duplicate-on-fresh", "other-on-fresh", "data-on-trained", "centre-of-trained"][j]
+            x_row = X[r.randrange(len(X))].copy()
+            if kind in ("duplicate-on-fresh", "other-on-fresh"):
+                # zero radius / zero extent: the category as created from one sample, then the same sample again
+                # (a duplicate) or another one
+                with quiet():
+                    w = np.array(m.new_weight(x_row, p), dtype=float)
+                x = x_row.copy() if kind == "duplicate-on-fresh" else X[r.randrange(len(X))].copy()
+            else:
+                w = np.array(m.W[r.randrange(len(m.W))], dtype=float)
+                x = centre_sample(cls, w, d) if kind == "centre-of-trained" else x_row
+                if x is None:
+                    x, kind = x_row, "data-on-trained"
+            pairs.append((kind, x, w))
+        for kind, x, w in pairs:
+            x0, w0 = x.copy(), w.copy()
+            # is the published rule defined here?  (e.g. ART1 with an all-zero sample, alpha = 0 with a zero weight, a
+            # Gaussian category of zero variance divide by zero in the equations themselves)
+            try:
+                with np.errstate(divide="raise", invalid="raise", over="ignore", under="ignore"), warnings.catch_warnings():
+                    warnings.simplefilter("error", RuntimeWarning)
+                    Tr, Mr, wr = reference(cls, p, d, x, w, [w_[-1] for w_ in m.W])
+                defined = bool(np.isfinite(Tr) and np.isfinite(Mr) and np.all(np.isfinite(wr)))
+            except UNDEFINED:
+                defined = False
+            if not defined:
+                cov.hit(f"policy:published-rule-undefined:{cls}")
+                continue
+            with numeric_policy("default"):
+                base, err = kernel_chain(m, x, w, p)
+            if err is not None or not (np.isfinite(base[0]) and np.isfinite(base[1]) and np.all(np.isfinite(base[2]))
+                                       and np.all(np.isfinite(base[3]))):
+                # reported (or classified) by the oracles above; nothing to compare a policy with
+                cov.hit(f"policy:default-run-undefined:{cls}")
+                continue
+            if cls in ("HypersphereART", "EllipsoidART"):
+                dist = float(np.sqrt(np.sum((x - w[:d]) ** 2)))
+                cov.hit(f"policy:{'on-centre' if dist == 0.0 else 'off-centre'}:{'zero-radius' if w[-1] == 0.0 else 'positive-radius'}")
+            for pol in POLICIES:
+                rep = {"class": cls, "spec": spec, "X": X, "x": x0, "w": w0, "situation": kind, "policy": pol,
+                       "policy_is": {"errstate-raise": "np.errstate(divide='raise', invalid='raise')",
+                                     "warnings-as-errors": "warnings.simplefilter('error', RuntimeWarning)",
+                                     "plain-float-cache": "numpy scalars of the cache replaced by equal Python floats"}[pol],
+                       "default_policy_values": {"T": base[0], "M": base[1], "update": base[2], "new_weight": base[3]},
+                       "params": {k: v for k, v in p.items() if not hasattr(v, "shape")}}
+                with numeric_policy(pol):
+                    got, err = kernel_chain(m, x, w, p, cache_map=plain_cache if pol == "plain-float-cache" else None)
+                if err is not None:
+                    fn, e = err
+                    ctx.issue("violation", f"{cls}.{fn}:raises-under-numeric-policy:{pol}:{exc_enum(e)}",
+                              f"{fn} raised {e!r} under the policy [{rep['policy_is']}] on x = {x0.tolist()}, w = {w0.tolist()} "
+                              f"({kind}); the published rule is defined there and under the default policy the kernels return "
+                              f"T = {base[0]!r}, M = {base[1]!r}, update = {base[2].tolist()}", dict(rep, raised_in=fn, raised=repr(e)))
+                    continue
+                same = (close(got[0], base[0]) and close(got[1], base[1]) and got[2].shape == base[2].shape
+                        and got[3].shape == base[3].shape
+                        and np.allclose(got[2], base[2], rtol=1e-12, atol=1e-12) and np.allclose(got[3], base[3], rtol=1e-12, atol=1e-12))
+                if not same:
+                    ctx.issue("violation", f"{cls}.kernel:value-depends-on-numeric-policy:{pol}",
+                              f"under [{rep['policy_is']}] T, M, update, new_weight = {got[0]!r}, {got[1]!r}, {got[2].tolist()}, "
+                              f"{got[3].tolist()}; under the default policy {base[0]!r}, {base[1]!r}, {base[2].tolist()}, {base[3].tolist()}",
+                              dict(rep, values={"T": got[0], "M": got[1], "update": got[2], "new_weight": got[3]}))
+                if not (np.array_equal(x, x0) and np.array_equal(w, w0)):
+                    ctx.issue("violation", f"{cls}.kernel:mutates-arguments:{pol}", "x or w changed by a kernel call", rep)
+                cov.hit(f"policy:{pol}:{cls}")
+                cov.hit(f"policy:{pol}:{kind}")
+            cov.case(("policy", cls, spec, x0.tolist(), w0.tolist()), True)
